@@ -306,4 +306,20 @@ def oracle(c):
         return "config accepted an unknown key"
     except KeyError:
         pass
+    # every way of setting an option validates: item syntax, attribute syntax, the constructor
+    Config = type(formulae.config)
+    for how, setter in (("attribute", lambda v: setattr(formulae.config, "EVAL_UNSEEN_CATEGORIES", v)),
+                        ("item", lambda v: formulae.config.__setitem__("EVAL_UNSEEN_CATEGORIES", v)),
+                        ("constructor", lambda v: Config({"EVAL_UNSEEN_CATEGORIES": v}))):
+        for bad in ("Warning", "bogus", ""):
+            try:
+                setter(bad)
+            except Exception:  # noqa
+                if formulae.config["EVAL_UNSEEN_CATEGORIES"] != before:
+                    formulae.config["EVAL_UNSEEN_CATEGORIES"] = before
+                    return f"config ({how} syntax) refused {bad!r} but changed its value"
+                continue
+            if how != "constructor":
+                object.__setattr__(formulae.config, "EVAL_UNSEEN_CATEGORIES", before)
+            return f"config ({how} syntax) accepted the undocumented value {bad!r}"
     return None
